@@ -46,30 +46,32 @@ def _run_external(cmd, smt2, timeout_s):
 MULF = z3.Function("$mul", z3.IntSort(), z3.IntSort(), z3.IntSort())
 
 
-def abstract_nl(assertions):
-    """Replace products of two or more non-constant integer factors by applications of an uninterpreted function
-    (commutative by canonical argument order) and add sound lemmas: interval bounds, sign rules, zero rule.
-    Over-approximation: unsat of the abstraction implies unsat of the original. Returns (assertions, n_products)."""
-    from .intervals import collect_bounds, interval, mul_iv, INF
-    bounds = collect_bounds(assertions)
-    memo = {}
-    ivmemo = {}
-    lemmas = []
-    apps = {}
+class NLAbstraction:
+    """Replaces products of two or more non-constant integer factors by applications of an uninterpreted function
+    (commutative by canonical argument order) and emits sound lemmas: interval bounds, sign rules, zero/unit rules.
+    Over-approximation: unsat of the abstraction implies unsat of the original."""
 
-    def mk(a, b):
+    def __init__(self):
+        self.memo = {}
+        self.ivmemo = {}
+        self.apps = {}
+        self.keep = []  # keep terms alive so that ids are not reused
+
+    def mk(self, a, b, bounds, lemmas):
+        from .intervals import interval, mul_iv, INF
         if a.get_id() > b.get_id():
             a, b = b, a
         key = (a.get_id(), b.get_id())
-        if key in apps:
-            return apps[key]
+        if key in self.apps:
+            return self.apps[key]
         app = MULF(a, b)
-        ia, ib = interval(a, bounds, ivmemo), interval(b, bounds, ivmemo)
-        iv = mul_iv(ia, ib) if (abs(ia[0]) != INF and abs(ia[1]) != INF and abs(ib[0]) != INF and abs(ib[1]) != INF) else (-INF, INF)
+        ia, ib = interval(a, bounds, dict(self.ivmemo)), interval(b, bounds, dict(self.ivmemo))
+        fin = all(abs(v) != INF for v in (ia[0], ia[1], ib[0], ib[1]))
+        iv = mul_iv(ia, ib) if fin else (-INF, INF)
         if a.get_id() == b.get_id():
             iv = (max(0, iv[0]), iv[1])
             lemmas.append(app >= 0)
-        ivmemo[app.get_id()] = iv
+        self.ivmemo[app.get_id()] = iv
         if iv[0] != -INF:
             lemmas.append(app >= int(iv[0]))
         if iv[1] != INF:
@@ -79,21 +81,22 @@ def abstract_nl(assertions):
         lemmas.append(z3.Implies(z3.Or(z3.And(a > 0, b < 0), z3.And(a < 0, b > 0)), app < 0))
         lemmas.append(z3.Implies(a == 1, app == b))
         lemmas.append(z3.Implies(b == 1, app == a))
-        # |a*b| >= |a| when b != 0 (and symmetric)
         lemmas.append(z3.Implies(z3.And(a >= 0, b >= 1), app >= a))
         lemmas.append(z3.Implies(z3.And(b >= 0, a >= 1), app >= b))
-        apps[key] = app
+        self.apps[key] = app
+        self.keep.append((a, b, app))
         return app
 
-    def walk(t):
+    def walk(self, t, bounds, lemmas):
         k = t.get_id()
-        r = memo.get(k)
+        r = self.memo.get(k)
         if r is not None:
             return r
         if z3.is_quantifier(t) or not z3.is_app(t) or t.num_args() == 0:
-            memo[k] = t
+            self.memo[k] = t
+            self.keep.append(t)
             return t
-        ch = [walk(c) for c in t.children()]
+        ch = [self.walk(c, bounds, lemmas) for c in t.children()]
         if z3.is_int(t) and t.decl().kind() == z3.Z3_OP_MUL:
             const = 1
             non = []
@@ -106,17 +109,34 @@ def abstract_nl(assertions):
                 non.sort(key=lambda x: x.get_id())
                 acc = non[0]
                 for c in non[1:]:
-                    acc = mk(acc, c)
+                    acc = self.mk(acc, c, bounds, lemmas)
                 r = acc if const == 1 else acc * const
-                memo[k] = r
+                self.memo[k] = r
+                self.keep.append(t)
                 return r
         changed = any(c.get_id() != o.get_id() for c, o in zip(ch, t.children()))
         r = t.decl()(*ch) if changed else t
-        memo[k] = r
+        self.memo[k] = r
+        self.keep.append(t)
         return r
 
-    out = [walk(a) for a in assertions]
-    return out + lemmas, len(apps)
+    def abstract(self, t, bounds):
+        lemmas = []
+        r = self.walk(t, bounds, lemmas)
+        return r, lemmas
+
+
+def abstract_nl(assertions):
+    from .intervals import collect_bounds
+    bounds = collect_bounds(assertions)
+    ab = NLAbstraction()
+    out = []
+    lemmas = []
+    for a in assertions:
+        r, ls = ab.abstract(a, bounds)
+        out.append(r)
+        lemmas += ls
+    return out + lemmas, len(ab.apps)
 
 
 def check_sat(assertions, timeout_ms=10000, want_model=True, fallback=True):
